@@ -110,4 +110,221 @@ theorem c02p_step_ms {l l' : Level} (h : c02p_LevelOK l) (h' : c02p_LevelOK l') 
     rw [Nat.add_mul_div_left _ _ hqL0] at h2
     exact h2
 
+/-! ## levelled programs -/
+
+/-- the chain: every level built by the constructors (bundles of C01P / C05U), consecutive levels related by `c02p_Next` -/
+structure c02p_ChainOK (chain : Nat → Level) (top : Nat) : Prop where
+  level : ∀ c, c ≤ top → c02p_LevelOK (chain c)
+  tool : ∀ c, c ≤ top → c05u_ToolOK (chain c)
+  bgv : ∀ c, 0 < c → c ≤ top → c05u_BgvOK (chain c)
+  next : ∀ c, c < top → c02p_Next (chain (c + 1)) (chain c)
+
+theorem c02p_chain_n {chain : Nat → Level} {top : Nat} (hch : c02p_ChainOK chain top) :
+    ∀ d c, c + d = top → (chain c).n = (chain top).n
+  | 0, c, h => by have : c = top := by omega
+                  rw [this]
+  | d+1, c, h => by
+    have h1 := c02p_chain_n hch d (c + 1) (by omega)
+    have h2 := (hch.next c (by omega)).n
+    rw [h2, h1]
+
+theorem c02p_ChainOK.n {chain : Nat → Level} {top : Nat} (hch : c02p_ChainOK chain top) {c : Nat} (hc : c ≤ top) :
+    (chain c).n = (chain top).n := c02p_chain_n hch (top - c) c (by omega)
+
+/-- shadow of a levelled program: modulus switching does not change the message -/
+def LProg.shadow (n : Nat) (M PL : Nat → Nat → Int) : LProg → Nat → Int
+  | .inp i => M i
+  | .neg p => fun j => - p.shadow n M PL j
+  | .add p q => fun j => p.shadow n M PL j + q.shadow n M PL j
+  | .sub p q => fun j => p.shadow n M PL j - q.shadow n M PL j
+  | .mul p q => negMulR n (p.shadow n M PL) (q.shadow n M PL)
+  | .mulPlain p k => negMulR n (p.shadow n M PL) (PL k)
+  | .modSwitch p => p.shadow n M PL
+
+theorem c02p_err_ne_ok {α : Type} {e : Err} {x : α} (h : (Except.error e : R α) = .ok x) : False := by cases h
+
+/-- THE INDUCTION for levelled programs -/
+theorem c02p_lprog_inv {chain : Nat → Level} {top : Nat} (hch : c02p_ChainOK chain top) {sk : Array Int}
+    (hsk : sk.size = (chain top).n) {S : Nat} (hS : ∑ k ∈ range (chain top).n, (c02p_sk sk k).natAbs ≤ S)
+    (cts : Nat → Nat × Ct) (pls : Nat → Nat × RnsPoly) (M PL : Nat → Nat → Int) (inB : Nat → Nat × Nat × Nat × Nat)
+    (plB : Nat → Nat × Nat) :
+    ∀ (prog : LProg) (x : Nat × Ct),
+      (∀ i ∈ prog.ctInputs, (cts i).1 ≤ top ∧ c02p_Enc (chain (cts i).1) sk (cts i).2 (M i) (inB i).2.2.2 ∧
+        inB i = ((cts i).1, (cts i).2.cf, (cts i).2.polys.size, (inB i).2.2.2)) →
+      (∀ k ∈ prog.plInputs, RnsCanon (chain (pls k).1) (pls k).2 ∧ c02p_PlainLift (chain (pls k).1) (pls k).2 (PL k) ∧
+        (∀ j, j < (chain top).n → (PL k j).natAbs ≤ (plB k).2) ∧ (plB k).1 = (pls k).1) →
+      prog.eval chain cts pls = .ok x →
+      x.1 ≤ top ∧ ∃ V, prog.noiseUB chain S inB plB = some (x.1, x.2.cf, x.2.polys.size, V) ∧
+        c02p_Enc (chain x.1) sk x.2 (prog.shadow (chain top).n M PL) V := by
+  intro prog
+  induction prog with
+  | inp i =>
+    intro x hin _ hev
+    have hx : cts i = x := Except.ok.inj hev
+    subst hx
+    obtain ⟨hle, he, hb⟩ := hin i (by simp [LProg.ctInputs])
+    exact ⟨hle, (inB i).2.2.2, by rw [LProg.noiseUB]; exact congrArg some hb, he⟩
+  | neg p ih =>
+    intro x hin hpl hev
+    rw [LProg.eval] at hev
+    obtain ⟨⟨la, a⟩, hea, hev1⟩ := c01p_bind_ok hev
+    obtain ⟨r, hr, hev2⟩ := c01p_bind_ok hev1
+    have hx : (la, r) = x := Except.ok.inj hev2
+    subst hx
+    obtain ⟨hle, V, hub, ea⟩ := ih (la, a) hin hpl hea
+    have hL := hch.level la hle
+    obtain ⟨hcf, hsz, er⟩ := c02p_step_neg hL (by rw [hch.n hle]; exact hsk) ea hr
+    exact ⟨hle, V, by rw [LProg.noiseUB, hub]; simp only [hcf, hsz], er⟩
+  | add p q ihp ihq =>
+    intro x hin hpl hev
+    rw [LProg.eval] at hev
+    obtain ⟨⟨la, a⟩, hea, hev1⟩ := c01p_bind_ok hev
+    obtain ⟨⟨lb, b⟩, heb, hev2⟩ := c01p_bind_ok hev1
+    by_cases hl : la ≠ lb
+    · simp only [hl, ne_eq, not_false_eq_true, if_true] at hev2
+      exact (c02p_err_ne_ok hev2).elim
+    · have hl' : la = lb := not_not.mp hl
+      subst hl'
+      simp only [ne_eq, not_true_eq_false, if_false] at hev2
+      obtain ⟨r, hr, hev3⟩ := c01p_bind_ok hev2
+      have hx : (la, r) = x := Except.ok.inj hev3
+      subst hx
+      obtain ⟨hle, Va, huba, ea⟩ := ihp (la, a) (fun i hi => hin i (by simp [LProg.ctInputs, hi]))
+        (fun k hk => hpl k (by simp [LProg.plInputs, hk])) hea
+      obtain ⟨_, Vb, hubb, eb⟩ := ihq (la, b) (fun i hi => hin i (by simp [LProg.ctInputs, hi]))
+        (fun k hk => hpl k (by simp [LProg.plInputs, hk])) heb
+      have hL := hch.level la hle
+      obtain ⟨e1, e2, hbal, hsz, hE⟩ := c02p_step_tr2 hL (by rw [hch.n hle]; exact hsk) ea eb false hr
+      refine ⟨hle, e1 * Va + e2 * Vb, ?_, ?_⟩
+      · rw [LProg.noiseUB, huba, hubb]
+        simp only [ne_eq, not_true_eq_false, if_false, hbal, hsz]
+      · have hE' : c02p_Enc (chain la) sk r (fun j => p.shadow (chain top).n M PL j + q.shadow (chain top).n M PL j) (e1 * Va + e2 * Vb) := by
+          simpa using hE
+        exact hE'
+  | sub p q ihp ihq =>
+    intro x hin hpl hev
+    rw [LProg.eval] at hev
+    obtain ⟨⟨la, a⟩, hea, hev1⟩ := c01p_bind_ok hev
+    obtain ⟨⟨lb, b⟩, heb, hev2⟩ := c01p_bind_ok hev1
+    by_cases hl : la ≠ lb
+    · simp only [hl, ne_eq, not_false_eq_true, if_true] at hev2
+      exact (c02p_err_ne_ok hev2).elim
+    · have hl' : la = lb := not_not.mp hl
+      subst hl'
+      simp only [ne_eq, not_true_eq_false, if_false] at hev2
+      obtain ⟨r, hr, hev3⟩ := c01p_bind_ok hev2
+      have hx : (la, r) = x := Except.ok.inj hev3
+      subst hx
+      obtain ⟨hle, Va, huba, ea⟩ := ihp (la, a) (fun i hi => hin i (by simp [LProg.ctInputs, hi]))
+        (fun k hk => hpl k (by simp [LProg.plInputs, hk])) hea
+      obtain ⟨_, Vb, hubb, eb⟩ := ihq (la, b) (fun i hi => hin i (by simp [LProg.ctInputs, hi]))
+        (fun k hk => hpl k (by simp [LProg.plInputs, hk])) heb
+      have hL := hch.level la hle
+      obtain ⟨e1, e2, hbal, hsz, hE⟩ := c02p_step_tr2 hL (by rw [hch.n hle]; exact hsk) ea eb true hr
+      refine ⟨hle, e1 * Va + e2 * Vb, ?_, ?_⟩
+      · rw [LProg.noiseUB, huba, hubb]
+        simp only [ne_eq, not_true_eq_false, if_false, hbal, hsz]
+      · have hE' : c02p_Enc (chain la) sk r (fun j => p.shadow (chain top).n M PL j - q.shadow (chain top).n M PL j) (e1 * Va + e2 * Vb) := by
+          simpa using hE
+        exact hE'
+  | mul p q ihp ihq =>
+    intro x hin hpl hev
+    rw [LProg.eval] at hev
+    obtain ⟨⟨la, a⟩, hea, hev1⟩ := c01p_bind_ok hev
+    obtain ⟨⟨lb, b⟩, heb, hev2⟩ := c01p_bind_ok hev1
+    by_cases hl : la ≠ lb
+    · simp only [hl, ne_eq, not_false_eq_true, if_true] at hev2
+      exact (c02p_err_ne_ok hev2).elim
+    · have hl' : la = lb := not_not.mp hl
+      subst hl'
+      simp only [ne_eq, not_true_eq_false, if_false] at hev2
+      obtain ⟨r, hr, hev3⟩ := c01p_bind_ok hev2
+      have hx : (la, r) = x := Except.ok.inj hev3
+      subst hx
+      obtain ⟨hle, Va, huba, ea⟩ := ihp (la, a) (fun i hi => hin i (by simp [LProg.ctInputs, hi]))
+        (fun k hk => hpl k (by simp [LProg.plInputs, hk])) hea
+      obtain ⟨_, Vb, hubb, eb⟩ := ihq (la, b) (fun i hi => hin i (by simp [LProg.ctInputs, hi]))
+        (fun k hk => hpl k (by simp [LProg.plInputs, hk])) heb
+      have hL := hch.level la hle
+      obtain ⟨hcf, hsz, hE⟩ := c02p_step_mul hL (by rw [hch.n hle]; exact hsk) ea eb hr
+      refine ⟨hle, (chain la).n * Va * Vb, ?_, ?_⟩
+      · rw [LProg.noiseUB, huba, hubb]
+        simp only [ne_eq, not_true_eq_false, if_false, hcf, hsz]
+      · have e : negMulR (R := Int) (chain la).n = negMulR (chain top).n := by rw [hch.n hle]
+        rw [e] at hE
+        exact hE
+  | mulPlain p k ih =>
+    intro x hin hpl hev
+    rw [LProg.eval] at hev
+    obtain ⟨⟨la, a⟩, hea, hev1⟩ := c01p_bind_ok hev
+    obtain ⟨hpc, hpL, hpB, hpl1⟩ := hpl k (by simp [LProg.plInputs])
+    by_cases hl : la ≠ (pls k).1
+    · simp only [hl, ne_eq, not_false_eq_true, if_true] at hev1
+      exact (c02p_err_ne_ok hev1).elim
+    · have hl' : la = (pls k).1 := not_not.mp hl
+      simp only [hl, ne_eq, if_false] at hev1
+      obtain ⟨r, hr, hev3⟩ := c01p_bind_ok hev1
+      have hx : (la, r) = x := Except.ok.inj hev3
+      subst hx
+      obtain ⟨hle, Va, huba, ea⟩ := ih (la, a) hin (fun k' hk => hpl k' (by simp [LProg.plInputs, hk])) hea
+      have hL := hch.level la hle
+      rw [← hl'] at hpc hpL
+      obtain ⟨hcf, hsz, hE⟩ := c02p_step_pl hL (by rw [hch.n hle]; exact hsk) ea hpc hpL
+        (fun j hj => hpB j (by rw [← hch.n hle]; exact hj)) hr
+      refine ⟨hle, (chain la).n * Va * (plB k).2, ?_, ?_⟩
+      · rw [LProg.noiseUB, huba]
+        simp only [hpl1, hl, ne_eq, if_false, hcf, hsz]
+      · have e : negMulR (R := Int) (chain la).n = negMulR (chain top).n := by rw [hch.n hle]
+        rw [e] at hE
+        exact hE
+  | modSwitch p ih =>
+    intro x hin hpl hev
+    rw [LProg.eval] at hev
+    obtain ⟨⟨la, a⟩, hea, hev1⟩ := c01p_bind_ok hev
+    by_cases hl : la = 0
+    · simp only [hl, if_true] at hev1
+      exact (c02p_err_ne_ok hev1).elim
+    · simp only [hl, if_false] at hev1
+      obtain ⟨r, hr, hev3⟩ := c01p_bind_ok hev1
+      have hx : (la - 1, r) = x := Except.ok.inj hev3
+      subst hx
+      obtain ⟨hle, Va, huba, ea⟩ := ih (la, a) hin hpl hea
+      have hle' : la - 1 ≤ top := by omega
+      have hnx : c02p_Next (chain la) (chain (la - 1)) := by
+        have := hch.next (la - 1) (by omega)
+        rwa [show la - 1 + 1 = la by omega] at this
+      obtain ⟨hcf, hsz, hE⟩ := c02p_step_ms (hch.level la hle) (hch.level (la - 1) hle') (hch.tool la hle) (hch.tool (la - 1) hle')
+        (hch.bgv la (by omega) hle) hnx (by rw [hch.n hle]; exact hsk) (S := S) (by rw [hch.n hle]; exact hS) ea hr
+      refine ⟨hle', _, ?_, hE⟩
+      rw [LProg.noiseUB, huba]
+      simp only [hl, if_false, hcf, hsz]
+
+/-! ## Property theorem -/
+
+/-- THE PROGRAM-LEVEL HOMOMORPHISM THEOREM (BGV, levelled): programs over negate / add / sub / multiply / multiply_plain AND
+    `mod_switch_to_next`, along any chain of constructor-built levels (`c02p_ChainOK`), for any secret with `‖s‖₁ ≤ S`.  If the model does
+    not refuse the program and returns `(lv, r)`, and the a-priori bookkeeping returns the bound `V` with `2·V < Q_lv`, then decrypting `r`
+    AT ITS LEVEL gives the shadow program's value modulo t. -/
+theorem hom_program_bgv_levelled {chain : Nat → Level} {top : Nat} (hch : c02p_ChainOK chain top) {sk : Array Int}
+    (hsk : sk.size = (chain top).n) {S : Nat} (hS : ∑ k ∈ range (chain top).n, (c02p_sk sk k).natAbs ≤ S)
+    (cts : Nat → Nat × Ct) (pls : Nat → Nat × RnsPoly) (M PL : Nat → Nat → Int) (inB : Nat → Nat × Nat × Nat × Nat)
+    (plB : Nat → Nat × Nat) (prog : LProg) {lv : Nat} {r : Ct}
+    (hin : ∀ i ∈ prog.ctInputs, (cts i).1 ≤ top ∧ c02p_Enc (chain (cts i).1) sk (cts i).2 (M i) (inB i).2.2.2 ∧
+        inB i = ((cts i).1, (cts i).2.cf, (cts i).2.polys.size, (inB i).2.2.2))
+    (hpl : ∀ k ∈ prog.plInputs, RnsCanon (chain (pls k).1) (pls k).2 ∧ c02p_PlainLift (chain (pls k).1) (pls k).2 (PL k) ∧
+        (∀ j, j < (chain top).n → (PL k j).natAbs ≤ (plB k).2) ∧ (plB k).1 = (pls k).1)
+    (hev : prog.eval chain cts pls = .ok (lv, r)) {st : Nat × Nat × Nat} {V : Nat}
+    (hub : prog.noiseUB chain S inB plB = some (st.1, st.2.1, st.2.2, V)) (hV : 2 * V < (chain lv).tool.baseQ.prod) :
+    bgvDecrypt (chain lv) sk r = .ok (Spec.trim (Array.ofFn (n := (chain lv).n) fun j =>
+      Spec.imod (prog.shadow (chain top).n M PL j.val) (chain lv).t.value)) := by
+  obtain ⟨hle, V', hub', he⟩ := c02p_lprog_inv hch hsk hS cts pls M PL inB plB prog (lv, r) hin hpl hev
+  rw [hub] at hub'
+  have hVV : V = V' := by
+    injection hub' with h1
+    injection h1 with _ h2
+    injection h2 with _ h3
+    injection h3
+  subst hVV
+  exact c02p_decrypt_of_enc (hch.level lv hle) (by rw [hch.n hle]; exact hsk) he hV
+
 end HC
